@@ -46,13 +46,18 @@ Record pst := {
   orc : list bool;     (* branch taken at the next [If]s *)
   pub_attr : bool;     (* the attribute dictionary has been stored in the cache *)
   pub_sort : bool;     (* the item list has been stored in the sort cache *)
-  nupd : Z             (* updates of a published dictionary so far *)
+  nupd : Z;            (* updates of a published dictionary so far *)
+  boom : bool;         (* on this path validate() itself raises *)
+  exn : bool           (* an exception is propagating *)
 }.
 
 Definition emit (c : Z) (p : pst) : pst :=
-  {| evs := c :: evs p; stop := stop p; orc := orc p; pub_attr := pub_attr p; pub_sort := pub_sort p; nupd := nupd p |}.
+  {| evs := c :: evs p; stop := stop p; orc := orc p; pub_attr := pub_attr p; pub_sort := pub_sort p; nupd := nupd p; boom := boom p; exn := exn p |}.
 Definition set_stop (b : bool) (p : pst) : pst :=
-  {| evs := evs p; stop := b; orc := orc p; pub_attr := pub_attr p; pub_sort := pub_sort p; nupd := nupd p |}.
+  {| evs := evs p; stop := b; orc := orc p; pub_attr := pub_attr p; pub_sort := pub_sort p; nupd := nupd p; boom := boom p; exn := exn p |}.
+
+Definition set_exn (b : bool) (p : pst) : pst :=
+  {| evs := evs p; stop := b; orc := orc p; pub_attr := pub_attr p; pub_sort := pub_sort p; nupd := nupd p; boom := boom p; exn := b |}.
 
 Definition rd_code (x : svar) : Z :=
   match x with AppWsdl => 1 | BWsdl => 2 | AttrCache => 12 | ErrLog => 10 | MemoIn => 17 | MemoGet => 22
@@ -71,35 +76,36 @@ Fixpoint walk (t : sk) (p : pst) : pst :=
   | Wr x =>
       let p1 := emit (wr_code x) p in
       match x with
-      | AttrCache => {| evs := evs p1; stop := stop p1; orc := orc p1; pub_attr := true; pub_sort := pub_sort p1; nupd := nupd p1 |}
-      | SortCache => {| evs := evs p1; stop := stop p1; orc := orc p1; pub_attr := pub_attr p1; pub_sort := true; nupd := nupd p1 |}
+      | AttrCache => {| evs := evs p1; stop := stop p1; orc := orc p1; pub_attr := true; pub_sort := pub_sort p1; nupd := nupd p1; boom := boom p; exn := exn p |}
+      | SortCache => {| evs := evs p1; stop := stop p1; orc := orc p1; pub_attr := pub_attr p1; pub_sort := true; nupd := nupd p1; boom := boom p; exn := exn p |}
       | _ => p1
       end
   | New => p
   | Upd => if pub_attr p
            then let p1 := emit (14 + nupd p) p in
-                {| evs := evs p1; stop := stop p1; orc := orc p1; pub_attr := pub_attr p1; pub_sort := pub_sort p1; nupd := nupd p + 1 |}
+                {| evs := evs p1; stop := stop p1; orc := orc p1; pub_attr := pub_attr p1; pub_sort := pub_sort p1; nupd := nupd p + 1; boom := boom p; exn := exn p |}
            else p                       (* the dictionary is still private: not a shared access *)
   | SortIt => if pub_sort p then emit (-4) p else p   (* sorting a published list would be one *)
   | Acq l => emit (acq_code l) p
   | Rel l => emit (rel_code l) p
   | Call Build => emit 6 (emit 5 p)     (* build_interface_document: starts, then its single write of __wsdl *)
-  | Call Validate => emit 9 p
+  | Call Validate => if boom p then set_exn true (emit 9 p) else emit 9 p   (* validate() itself may raise *)
   | Call Func => p                      (* the memoised function itself: thread-local *)
   | If c body =>
       match orc p with
       | [] => emit (-1) p               (* path description too short *)
       | b :: r =>
-          let p1 := {| evs := evs p; stop := stop p; orc := r; pub_attr := pub_attr p; pub_sort := pub_sort p; nupd := nupd p |} in
+          let p1 := {| evs := evs p; stop := stop p; orc := r; pub_attr := pub_attr p; pub_sort := pub_sort p; nupd := nupd p; boom := boom p; exn := exn p |} in
           if b then walk body p1 else p1
       end
   | With l body =>                      (* the lock is released however the block is left *)
       let p1 := walk body (emit (acq_code l) p) in
       set_stop (stop p1) (emit (rel_code l) p1)
-  | Try body handlers fin =>            (* no exception on a modelled path: handlers are not entered *)
+  | Try body handlers fin =>            (* the handlers are entered when an exception propagates out of the body *)
       let p1 := walk body p in
-      let p2 := walk fin (set_stop false p1) in
-      set_stop (stop p1 || stop p2) p2
+      let p2 := if exn p1 then walk handlers (set_exn false p1) else p1 in
+      let p3 := walk fin (set_stop false p2) in
+      set_stop (stop p2 || stop p3) p3
   | Loop body => walk body p            (* one iteration *)
   | Ret | Raise => set_stop true p
   end.
@@ -145,7 +151,10 @@ Definition text_attrs (v : variant) : sk :=
 Definition text_validate (v : variant) : sk :=
   match v with
   | Pinned =>   Call Validate ;; If CFalse (Rd ErrLog ;; Raise)
-  | Repaired => With VLock (Call Validate ;; If CFalse (Rd ErrLog)) ;; If CFalse Raise
+  | Repaired => (* try: with lock: ret = validate(); if ret == False: read the log
+                   except XMLSchemaValidateError: raise SchemaValidationError(text of the exception)
+                   if ret == False: raise SchemaValidationError(text read) *)
+      Try (With VLock (Call Validate ;; If CFalse (Rd ErrLog))) Raise Skip ;; If CFalse Raise
   end.
 
 Definition text_memo : sk :=
@@ -190,7 +199,8 @@ Definition attrs_paths (v : variant) : list (list req * list Z * Z * list bool) 
 Definition validate_paths (v : variant) : list (list req * list Z * Z * list bool) :=
   match v with
   | Repaired => [ ([RValidate false 7], [0;0;0;0], 0, [true; true]);
-                  ([RValidate true 0], [0;0;0], 0, [false; false]) ]
+                  ([RValidate true 0], [0;0;0], 0, [false; false]);
+                  ([RValidateX 9], [0;0;0], 0, []) ]         (* validate() raises: lock released, handler *)
   | Pinned =>   [ ([RValidate false 7], [0;0], 0, [true]);
                   ([RValidate true 0], [0], 0, [false]) ]
   end.
@@ -209,17 +219,20 @@ Fixpoint walk_calls (n : nat) (t : sk) (p : pst) : pst :=
   match n with
   | O => p
   | S n' =>
-      match orc p with
-      | [] => p
-      | _ => let p1 := walk t (set_stop false p) in
-             walk_calls n' t {| evs := evs p1; stop := false; orc := orc p1; pub_attr := false; pub_sort := false; nupd := 0 |}
+      let p1 := walk t (set_stop false p) in
+      let p2 := {| evs := evs p1; stop := false; orc := orc p1; pub_attr := false; pub_sort := false; nupd := 0; boom := boom p; exn := false |} in
+      match orc p1 with
+      | [] => p2
+      | _ => walk_calls n' t p2
       end
   end.
-Definition paths_of (t : sk) (branches : list bool) : list Z :=
-  rev (evs (walk_calls 8 t {| evs := []; stop := false; orc := branches; pub_attr := false; pub_sort := false; nupd := 0 |})).
+Definition paths_of (t : sk) (raises : bool) (branches : list bool) : list Z :=
+  rev (evs (walk_calls 8 t {| evs := []; stop := false; orc := branches; pub_attr := false; pub_sort := false; nupd := 0; boom := raises; exn := false |})).
 
 Definition path_ok (v : variant) (t : sk) (c : list req * list Z * Z * list bool) : bool :=
-  let '(rs, sched, th, bs) := c in same (thread_codes v rs sched th) (paths_of t bs).
+  let '(rs, sched, th, bs) := c in
+  same (thread_codes v rs sched th)
+       (paths_of t (match nth_req rs th with RValidateX _ => true | _ => false end) bs).
 
 Definition paths_ok (v : variant) (w a val m s : sk) : bool :=
   forallb (path_ok v w) (wsdl_paths v) && forallb (path_ok v a) (attrs_paths v) &&
